@@ -48,6 +48,8 @@ func c20Case(c c05Case, viol func(sig, detail string), r *core.Run) {
 		c20File(c, viol, r)
 	case "shard":
 		c20Shard(c, viol, r)
+	case "handshard":
+		c20HandShard(c, viol, r)
 	case "path":
 		c20Paths(c, viol, r)
 	}
@@ -244,6 +246,97 @@ func c20Shard(c c05Case, viol func(sig, detail string), r *core.Run) {
 	}
 }
 
+// c20HandShard: hand-written shard DAGs (child shards of another fanout than
+// their parent, empty children, two children under one slot). Walks of the
+// whole directory that succeed request every shard block, depth-first in link
+// order; a walk the library refuses (a listing meeting a child of another
+// width) has requested a prefix of that order.
+func c20HandShard(c c05Case, viol func(sig, detail string), r *core.Run) {
+	spec, ok := gen.HandShards()[c.Hand]
+	if !ok {
+		viol("harness", "unknown hand-written shard DAG "+c.Hand)
+		return
+	}
+	s := store.New()
+	root, _ := spec.Build(s)
+	hm, err := model.Hamt(s, root)
+	if err != nil {
+		viol("model-error", fmt.Sprintf("%s: %v", c, err))
+		return
+	}
+	want := store.FirstReads(hm.Shards())
+	if r != nil {
+		r.States.Add(1)
+	}
+	ls := lsFor(s)
+	ops := map[string]func(rn datamodel.Node) error{
+		"MapIterator": func(rn datamodel.Node) error {
+			n, err := openVia("unixfs", ls, rn)
+			if err != nil {
+				return err
+			}
+			it := n.MapIterator()
+			for steps := 0; !it.Done(); steps++ {
+				if _, _, err := it.Next(); err != nil {
+					return err
+				}
+				if steps > 10000 {
+					return fmt.Errorf("iteration did not terminate")
+				}
+			}
+			return nil
+		},
+		"Length": func(rn datamodel.Node) error {
+			n, err := openVia("unixfs", ls, rn)
+			if err != nil {
+				return err
+			}
+			n.Length()
+			return nil
+		},
+		"preload-reify": func(rn datamodel.Node) error {
+			_, err := openVia("unixfs-preload", ls, rn)
+			return err
+		},
+		"preload-selector": func(datamodel.Node) error {
+			return walkMatching(ls, root, unixfsnode.MatchUnixFSPreloadSelector.Node(), unixfsnode.BytesConsumingMatcher)
+		},
+	}
+	for _, name := range sortedKeys(ops) {
+		for rep := 0; rep < 2; rep++ {
+			rn, err := loadRoot(ls, root)
+			if err != nil {
+				viol("load-root", err.Error())
+				return
+			}
+			s.ResetLogs()
+			err = ops[name](rn)
+			got := store.FirstReads(s.Reads())
+			if len(got) > 0 && got[0].Equals(root) {
+				got = got[1:] // the selector walk loads the root itself
+			}
+			wantHere := want
+			if len(wantHere) > 0 && wantHere[0].Equals(root) {
+				wantHere = wantHere[1:]
+			}
+			if r != nil {
+				r.Transitions.Add(1)
+			}
+			if err != nil {
+				// refused: what was requested so far is a prefix of the order
+				if len(got) > len(wantHere) || !sameOrder(got, wantHere[:len(got)]) {
+					viol("load-order handshard "+name, fmt.Sprintf("%s run %d: refused (%v) after requesting %s, which is not a prefix of the depth-first link order %s", c, rep, err, shortList(got), shortList(wantHere)))
+				}
+				break
+			}
+			if !sameOrder(got, wantHere) {
+				viol("load-order handshard "+name, fmt.Sprintf("%s run %d: first requests %s, depth-first link order is %s", c, rep, shortList(got), shortList(wantHere)))
+				break
+			}
+		}
+	}
+}
+
 // c20Paths: the requests for blocks on the path appear in root-to-target order.
 func c20Paths(c c05Case, viol func(sig, detail string), r *core.Run) {
 	s := store.New()
@@ -354,6 +447,10 @@ func runC20(r *core.Run) {
 		many = append(many, fmt.Sprintf("entry-%04d.dat", i))
 	}
 	cases = append(cases, c05Case{Kind: "shard", Fanout: 256, Names: many}, c05Case{Kind: "shard", Fanout: 16, Names: many[:600]}, c05Case{Kind: "shard", Fanout: 256, Names: many[:300], Ref: true})
+	// hand-written shard DAGs: mixed fanouts, empty children, duplicate slots
+	for _, l := range gen.HandShardLabels() {
+		cases = append(cases, c05Case{Kind: "handshard", Hand: l})
+	}
 	for _, t := range pathTrees(r.Quick()) {
 		t := t
 		cases = append(cases, c05Case{Kind: "path", Tree: &t})
